@@ -221,7 +221,7 @@ impl<'a> G<'a> {
                     6 => "(call_ref $t0 (ref.func $decl))".into(),
                     _ => { let l = self.fresh("L"); format!("(block {} (br_on_null {} (global.get $gnode)) (drop))", l, l) }
                 },
-                20 if p.eh => match self.k(4) {
+                20 if p.eh => match self.k(if p.mv { 4 } else { 3 }) {
                     0 => { let l = self.fresh("H"); format!("(drop (block {} (result i32) (try_table (catch $ex {}) (throw $ex {})) (i32.const 0)))", l, l, self.e_i32(1)) }
                     1 => { let l = self.fresh("H"); format!("(block {} (try_table (catch_all {}) {}))", l, l, self.stmt(0)) }
                     2 => { let l = self.fresh("H"); format!("(drop (block {} (result exnref) (try_table (catch_all_ref {}) {}) (ref.null exn)))", l, l, self.stmt(0)) }
@@ -275,6 +275,12 @@ fn gen_wat(r: &mut Rng, p: Prof) -> String {
         f.push("(type $leaf (sub final $node (struct (field $val (mut i32)) (field $next (ref null $node)) (field $tagf i16))))".into());
         if g.r.chance(1, 2) { f.push("(type $vec (array (ref null $node)))".into()); }
         if g.r.chance(1, 2) { f.push("(type $gcf (func (param (ref null $node) anyref eqref i31ref structref arrayref nullref nullfuncref nullexternref (ref $bytes)) (result (ref null $leaf))))".into()); }
+    }
+    if p.gc && g.r.chance(1, 2) {
+        // every non-nullable abstract reference type (all DataType variants without the Null suffix)
+        f.push(format!("(type $gcf2 (func (param (ref func) (ref extern) (ref any) (ref eq) (ref i31) (ref struct) (ref array) (ref none) (ref nofunc) (ref noextern){}) (result (ref $node) (ref null $t0))))",
+            if p.eh { " (ref exn) (ref noexn)" } else { "" }));
+        if !p.mv { let l = f.len() - 1; f[l] = f[l].replace(" (result (ref $node) (ref null $t0))", " (result (ref $node))"); }
     }
     if p.refs() && g.r.chance(1, 2) { f.push("(type $rf (func (param externref funcref) (result funcref)))".into()); }
     if p.simd && g.r.chance(1, 2) { f.push("(type $vf (func (param v128 f32) (result v128)))".into()); }
@@ -450,8 +456,13 @@ fn decorate(r: &mut Rng, bytes: Vec<u8>, desc: &mut String) -> Vec<u8> {
         secs.insert(pos, sec(&p));
         let _ = write!(desc, " +producers({} fields@{})", n, pos);
     } else if k < 93 {
-        secs.push(custom("producers", &[0]));
-        desc.push_str(" +producers(0 fields)");
+        match r.below(6) {
+            0 | 1 => { secs.push(custom("producers", &[0])); desc.push_str(" +producers(0 fields)"); }
+            2 => { secs.push(custom("producers", &[1, 4, b't', b'o', b'o', b'l', 0])); desc.push_str(" +producers(field `tool`)"); }
+            3 => { secs.push(custom("producers", &[1, 8, b'l', b'a', b'n', b'g', b'u', b'a', b'g', b'e', 1, 1, 0xff, 1, b'1'])); desc.push_str(" +producers(value not UTF-8)"); }
+            4 => { secs.push(custom("name", &[4, 4, 1, 0, 1, 0xff])); desc.push_str(" +second name section(type name not UTF-8)"); }
+            _ => { secs.push(custom("name", &[2, 3, 2, 0, 0])); desc.push_str(" +second name section(local map cut short)"); }
+        }
     } else if k < 97 {
         // a name section that can legitimately stand early: (A) without the function-name map, moved to the front or before the
         // imports; (B) with function names for the *imported* functions only, placed right after the import section
@@ -549,21 +560,21 @@ fn split_fields(text: &str) -> Vec<(String, String)> {
     out
 }
 
+/// per-case hash-consing of opaque texts: equal texts <-> equal (small) tokens, no collisions
+#[derive(Default)]
+struct Interner { map: std::collections::HashMap<String, u64> }
+impl Interner {
+    fn tok(&mut self, s: &str) -> u64 { let n = self.map.len() as u64 + 1; *self.map.entry(s.to_string()).or_insert(n) }
+}
+
 struct Summary {
     items: Vec<Vec<u64>>,                       // per kind
-    names: Vec<(u64, u64, u64, u64)>,           // (kind, index, sub-index, name hash)
+    names: Vec<(u64, u64, u64, u64)>,           // (kind, index, sub-index, name hash); kinds 0..11 = module function local label type table memory global elem data field tag
     customs: Vec<(u64, u64)>,                   // (name hash, data hash)
     text_ok: bool,
 }
 
-fn h(s: &str) -> u64 { fnv(s) % 1_000_000_007 }
-fn hb(b: &[u8]) -> u64 {
-    let mut x: u64 = 0xcbf29ce484222325;
-    for c in b { x ^= *c as u64; x = x.wrapping_mul(0x100000001b3); }
-    x % 1_000_000_007
-}
-
-fn summarize(bytes: &[u8]) -> Summary {
+fn summarize(bytes: &[u8], it: &mut Interner) -> Summary {
     let mut s = Summary { items: vec![vec![]; KINDS.len()], names: vec![], customs: vec![], text_ok: false };
     if let Some(stripped) = strip_customs(bytes) {
         if let Ok(Ok(text)) = catch_unwind(AssertUnwindSafe(|| wasmprinter::print_bytes(&stripped))) {
@@ -571,24 +582,24 @@ fn summarize(bytes: &[u8]) -> Summary {
             for (k, t) in split_fields(&text) {
                 let k = if k == "rec" { "type".to_string() } else { k };
                 match KINDS.iter().position(|x| *x == k) {
-                    Some(i) => s.items[i].push(h(&t)),
-                    None => s.items[0].push(h(&format!("?{}", t))),
+                    Some(i) => s.items[i].push(it.tok(&t)),
+                    None => s.items[0].push(it.tok(&format!("?{}", t))),
                 }
             }
         }
     }
-    if !s.text_ok { s.items[0].push(h("unprintable")); }
+    if !s.text_ok { s.items[0].push(it.tok("unprintable")); }
     if let Some(secs) = split_sections(bytes) {
         for (id, body) in secs {
             if id != 0 { continue; }
             let (name, off) = match custom_name(&body) { Some(x) => x, None => continue };
-            if name != "name" { s.customs.push((h(&name), hb(&body[off..]))); continue; }
+            if name != "name" { s.customs.push((it.tok(&name), it.tok(&format!("{:?}", &body[off..])))); continue; }
             let rd = wp::NameSectionReader::new(wp::BinaryReader::new(&body[off..], 0));
             for sub in rd {
                 let sub = match sub { Ok(x) => x, Err(_) => { s.names.push((99, 0, 0, 0)); break; } };
-                let direct = |k: u64, m: wp::NameMap, s: &mut Summary| { for n in m { match n { Ok(n) => s.names.push((k, n.index as u64, 0, h(n.name))), Err(_) => { s.names.push((99, k, 0, 0)); break; } } } };
+                let mut direct = |k: u64, m: wp::NameMap, s: &mut Summary| { for n in m { match n { Ok(n) => s.names.push((k, n.index as u64, 0, it.tok(n.name))), Err(_) => { s.names.push((99, k, 0, 0)); break; } } } };
                 match sub {
-                    wp::Name::Module { name, .. } => s.names.push((0, 0, 0, h(name))),
+                    wp::Name::Module { name, .. } => { let t = it.tok(name); s.names.push((0, 0, 0, t)) }
                     wp::Name::Function(m) => direct(1, m, &mut s),
                     wp::Name::Local(_) | wp::Name::Label(_) | wp::Name::Field(_) => {} // second pass below
                     wp::Name::Type(m) => direct(4, m, &mut s),
@@ -607,7 +618,7 @@ fn summarize(bytes: &[u8]) -> Summary {
                 let (k, m) = match sub { Ok(wp::Name::Local(m)) => (2u64, m), Ok(wp::Name::Label(m)) => (3, m), Ok(wp::Name::Field(m)) => (10, m), Ok(_) => continue, Err(_) => break };
                 for outer in m {
                     match outer {
-                        Ok(o) => for n in o.names { match n { Ok(n) => s.names.push((k, o.index as u64, n.index as u64, h(n.name))), Err(_) => { s.names.push((99, k, 0, 0)); break; } } },
+                        Ok(o) => for n in o.names { match n { Ok(n) => s.names.push((k, o.index as u64, n.index as u64, it.tok(n.name))), Err(_) => { s.names.push((99, k, 0, 0)); break; } } },
                         Err(_) => { s.names.push((99, k, 0, 0)); break; }
                     }
                 }
@@ -773,8 +784,9 @@ fn main() {
         let out_valid = encoded.as_ref().map_or(false, |o| catch_unwind(AssertUnwindSafe(|| wp::Validator::new_with_features(feats).validate_all(o).is_ok())).unwrap_or(false));
         let out_err = encoded.as_ref().and_then(|o| wp::Validator::new_with_features(feats).validate_all(o).err().map(|e| e.to_string()));
         // ---- summaries
-        let s_in = summarize(&bytes);
-        let s_out = match &encoded { Some(o) => summarize(o), None => Summary { items: vec![vec![]; KINDS.len()], names: vec![], customs: vec![], text_ok: false } };
+        let mut it = Interner::default();
+        let s_in = summarize(&bytes, &mut it);
+        let s_out = match &encoded { Some(o) => summarize(o, &mut it), None => Summary { items: vec![vec![]; KINDS.len()], names: vec![], customs: vec![], text_ok: false } };
         let am = catch_unwind(AssertUnwindSafe(|| abs_module(wp::Parser::new(0), &bytes))).unwrap_or(Abs { evs: vec!["MUnmodelled".into()], past_header: false });
         // ---- conversions
         let vts = converted_valtypes(&bytes);
@@ -786,11 +798,16 @@ fn main() {
         tags.push(format!("parse:{}", match &o_parse { Obs::Ok => "ok".to_string(), Obs::Err => "err".to_string(), Obs::Panic(k, _) => format!("panic:{}", k) }));
         if encoded.is_some() { tags.push(format!("content-equal:{}", same)); tags.push(format!("output-valid:{}", out_valid)); }
         tags.push(format!("input-valid:{}", in_valid));
-        let names4 = |v: &[(u64, u64, u64, u64)]| coq_list(v, |x| format!("({}, {}, {}, {})", x.0, x.1, x.2, x.3));
+        // per name-map kind the list of entry tokens hash(index, sub-index, name)
+        let mut names12 = |v: &[(u64, u64, u64, u64)]| {
+            let mut per: Vec<Vec<u64>> = vec![vec![]; 13];
+            for x in v { let k = if x.0 <= 11 { x.0 as usize } else { 12 }; per[k].push(it.tok(&format!("{}:{}:{}:{}", x.0, x.1, x.2, x.3))); }
+            coq_items(&per)
+        };
         let cust2 = |v: &[(u64, u64)]| coq_list(v, |x| format!("({}, {})", x.0, x.1));
         let coq = format!("mkRCase {} [{}] {} {} {} {} {} {} {} {} {} {} [{}]",
             b(mm), am.evs.join("; "), o_parse.coq(), o_enc.coq(), b(in_valid), b(out_valid),
-            coq_items(&s_in.items), coq_items(&s_out.items), names4(&s_in.names), names4(&s_out.names), cust2(&s_in.customs), cust2(&s_out.customs), conv.join("; "));
+            coq_items(&s_in.items), coq_items(&s_out.items), names12(&s_in.names), names12(&s_out.names), cust2(&s_in.customs), cust2(&s_out.customs), conv.join("; "));
         let mut d = format!("{} [{}]{} | {} bytes {} input-valid={} => parse={} encode={} output-valid={}{} content-equal={} items in/out per kind: {}", desc, prof.show(),
             if std::env::var("VH_SHOWWAT").is_ok() { format!("\n{}\n", wat_text) } else { String::new() }, bytes.len(), hex(&bytes), in_valid, o_parse.show(), o_enc.show(), out_valid,
             out_err.map(|e| format!(" ({})", e)).unwrap_or_default(), same,
